@@ -14,6 +14,11 @@ pub mod observe;
 pub mod scen_order;
 pub mod scen_static;
 pub mod scen_history;
+pub mod lspdrv;
+pub mod scen_scanedit;
+pub mod scen_diag;
+pub mod hostile;
+pub mod scen_chaos;
 
 include!(concat!(env!("OUT_DIR"), "/overlay_info.rs"));
 
